@@ -11,6 +11,7 @@ verus! {
 //@enum BSVErrors @ src/errors/mod.rs
 //@enum SigningHash @ src/ecdsa/mod.rs clone copy partialeq eq
 //@include shims/asref.rs
+//@include shims/codecs.rs
 //@include shims/k256.rs
 //@include shims/varint_writer.rs
 //@constbytes MAGIC_BYTES @ src/bsm/mod.rs
